@@ -10,6 +10,7 @@ import (
 	"os/exec"
 	"strings"
 	"sync"
+	"syscall"
 	"time"
 
 	"verifharness/vh"
@@ -157,11 +158,11 @@ func (e *engine) seeds(format string) []Seed { return e.corp.ByFormat[format] }
 // runTotality: the C05 / C06 generator families.
 func (e *engine) runTotality() {
 	r := e.rng
-	nCorpus, nMut, nTrunc, nFault := 60, 2500, 150, 150 // per format
+	nCorpus, nMut, nTrunc, nFault := 150, 20000, 1500, 1500 // per format
 	depths := []int{1, 2, 3, 8, 64, 300, 1000}
 	sizes := []int{1 << 10, 64 << 10}
 	if e.thorough {
-		nCorpus, nMut, nTrunc, nFault = 1 << 30, 60000, 3000, 3000
+		nCorpus, nMut, nTrunc, nFault = 1 << 30, 250000, 20000, 20000
 		depths = []int{1, 2, 3, 8, 64, 300, 1000, 3000, 10000}
 		sizes = []int{1 << 10, 64 << 10, 256 << 10, 1 << 20}
 	}
@@ -177,7 +178,9 @@ func (e *engine) runTotality() {
 					o := e.randOpts(r, f)
 					o.Offsets = i&1 == 1
 					o.Base = i&2 == 2
-					emit(Case{Format: f, Opts: o, Sched: wholeSched, Input: w.B, Family: "witness", Name: w.Name})
+					sc := wholeSched
+					sc.Chunk = []string{"whole", "1", "rand", "midrune"}[(i/2)%4]
+					emit(Case{Format: f, Opts: o, Sched: sc, Input: w.B, Family: "witness", Name: w.Name})
 				}
 			}
 		}
@@ -315,7 +318,13 @@ func (e *engine) confirmSuspects() {
 	if len(s) > 40 {
 		s = s[:40]
 	}
-	e.runInChildren(s, "confirm")
+	for len(s) > 0 { // one child at a time, nothing else running
+		done := e.oneChild(s, "confirm")
+		if done <= 0 {
+			done = 1
+		}
+		s = s[done:]
+	}
 }
 
 // ---------------------------------------------------------------- child processes
@@ -334,7 +343,12 @@ type childResult struct {
 	Ms      int64    `json:"ms"`
 }
 
+// childMemCap: hard address-space limit of a child (the decoders under test can allocate gigabytes on
+// a few hundred kilobytes of nested input; the machine is shared).
+const childMemCap = 4 << 30
+
 func childMain() {
+	syscall.Setrlimit(syscall.RLIMIT_AS, &syscall.Rlimit{Cur: childMemCap, Max: childMemCap})
 	in := bufio.NewReaderSize(os.Stdin, 1<<20)
 	w := bufio.NewWriter(os.Stdout)
 	i := 0
@@ -472,7 +486,10 @@ loop:
 		case strings.Contains(msg, "out of memory") || strings.Contains(msg, "cannot allocate"):
 			sub = "out-of-memory"
 		case err != nil && strings.Contains(err.Error(), "killed"):
-			kind, sub = "hang", c.Family
+			kind, sub = "hang", hangSub(c)
+		}
+		if strings.HasPrefix(sub, "out-of-memory") {
+			sub = "out-of-memory:" + hangSub(c)
 		}
 		if len(msg) > 600 {
 			msg = msg[:600]
@@ -503,6 +520,12 @@ func firstRepoFrameText(trace string) string {
 }
 
 func (e *engine) childOutcome(c Case, cr childResult, why string) {
+	if cr.Verdict == "hang" && why != "confirm" {
+		repMu.Lock()
+		e.suspects = append(e.suspects, c)
+		repMu.Unlock()
+		return
+	}
 	r := runResult{Outcome: Outcome{Verdict: cr.Verdict, Err: cr.Err, Life: cr.Life, WF: cr.WF, Elapsed: time.Duration(cr.Ms) * time.Millisecond}, Delivered: cr.Deliv}
 	r.Stmts = make([]string, cr.N)
 	if cr.PFunc != "" {
@@ -515,9 +538,21 @@ func (e *engine) childOutcome(c Case, cr childResult, why string) {
 	}
 	e.account(c, r)
 	repMu.Lock()
-	if cr.Ms > 500 {
-		e.rep.Count(fmt.Sprintf("slow>0.5s:%s:%s", c.Format, c.Name))
+	if time.Duration(cr.Ms)*time.Millisecond > budget(len(c.Input))/2 {
+		e.rep.Count(fmt.Sprintf("near-watchdog(>50%%):%s:%s", c.Format, c.Name))
 	}
 	repMu.Unlock()
 	e.k.judge(c, r)
+}
+
+// hangSub: class sub-key of a watchdog hit: generator family and generator name (no depth / size).
+func hangSub(c Case) string {
+	n := c.Name
+	if i := strings.Index(n, "@"); i > 0 {
+		n = n[:i]
+	}
+	if c.Family == "nest" || c.Family == "huge" {
+		return c.Family + ":" + n
+	}
+	return c.Family
 }
